@@ -1,12 +1,199 @@
 /-
-  C02 — equality is extensional; equal values are interchangeable.  (placeholder while the pipeline is wired)
+  C02 — equality is extensional; equal values are interchangeable.
+
+  Property theorems only (helper lemmas: Arrai/C02/Lemmas.lean; model: Arrai/C02/Model.lean).
+
+  `Rep` has one constructor per Go value type, `den : Rep → V` is the denotation, `wf` the canonical-form
+  invariant the Go constructors are supposed to establish, `Impl.equal` the transliteration of every `Equal`
+  method and `hashKey` the (symbolic) value of the repaired `Hash` methods — frozen identifies the elements
+  of a set by their full hash, so `Equal` on sets is decided by `hashKey`.
+
+  Full statements are kept as `def …_full : Prop`; what is proved is `…_partial` for the fragment
+  `frag` (numbers, the empty tuple, character and byte tuples, strings and byte arrays with offsets and
+  holes, booleans and generic sets of all these nested arbitrarily).  Arrays, non-empty generic tuples,
+  dictionaries, relations and union sets are covered by the correspondence run only.
 -/
-import Arrai.C02.Model
+import Arrai.C02.Lemmas
 
 namespace Arrai.C02.Theorems
 open Arrai Arrai.C02 Arrai.C02.Rep Arrai.C02.Impl
 
-theorem merge_noncanonical_before_repair :
-    wf (mergeLeftToRightOld (.gtuple [("@", .num 0)]) (.gtuple [("@char", .num 97)])) = false := by decide
+/-! ### Part 1 — `Equal` is equality of denotations on canonical forms -/
+
+def equal_iff_den_full : Prop :=
+  ∀ a b : Rep, wf a = true → wf b = true → (equal a b = true ↔ den a = den b)
+
+theorem equal_iff_den_partial (a b : Rep) (ha : wf a = true) (hb : wf b = true)
+    (fa : frag a = true) (fb : frag b = true) : equal a b = true ↔ den a = den b :=
+  (main_frag (depth a + depth b + 1) a b (by omega) (by omega) ha hb fa fb).1
+
+def equal_symm_full : Prop :=
+  ∀ a b : Rep, wf a = true → wf b = true → equal a b = equal b a
+
+theorem equal_symm_partial (a b : Rep) (ha : wf a = true) (hb : wf b = true)
+    (fa : frag a = true) (fb : frag b = true) : equal a b = equal b a := by
+  have h1 := equal_iff_den_partial a b ha hb fa fb
+  have h2 := equal_iff_den_partial b a hb ha fb fa
+  cases h : equal a b <;> cases h' : equal b a <;> simp_all
+  · exact h' (h2.2 (h1.1 h).symm) |>.elim
+  all_goals first | rfl | (exfalso; simp_all)
+
+/-- `GenericTuple.Equal` accepts any `Tuple`: outside canonical forms `Equal` is not symmetric -/
+theorem equal_symm_needs_wf :
+    equal (.gtuple [("@", .num 0), ("@char", .num 97)]) (.charT 0 97) = true ∧
+    equal (.charT 0 97) (.gtuple [("@", .num 0), ("@char", .num 97)]) = false := by decide
+
+/-! ### Part 2 — the hash contract, in both directions (frozen trusts hashes) -/
+
+def hash_contract_full : Prop :=
+  ∀ a b : Rep, wf a = true → wf b = true → equal a b = true → hashKey a = hashKey b
+
+theorem hash_contract_partial (a b : Rep) (ha : wf a = true) (hb : wf b = true)
+    (fa : frag a = true) (fb : frag b = true) (h : equal a b = true) : hashKey a = hashKey b := by
+  have m := main_frag (depth a + depth b + 1) a b (by omega) (by omega) ha hb fa fb
+  exact (m.2 [] []).2 ⟨rfl, m.1.1 h⟩
+
+def hash_injective_full : Prop :=
+  ∀ a b : Rep, wf a = true → wf b = true → hashKey a = hashKey b → den a = den b
+
+/-- different values have different (symbolic) hashes: what frozen's hash-trusting `Set.Equal` needs -/
+theorem hash_injective_partial (a b : Rep) (ha : wf a = true) (hb : wf b = true)
+    (fa : frag a = true) (fb : frag b = true) (h : hashKey a = hashKey b) : den a = den b :=
+  (((main_frag (depth a + depth b + 1) a b (by omega) (by omega) ha hb fa fb).2 [] []).1 h).2
+
+/-- under any seed (hashes are also used as seeds of the hashes of enclosing tuples and arrays) -/
+theorem hash_seeded_partial (a b : Rep) (ha : wf a = true) (hb : wf b = true)
+    (fa : frag a = true) (fb : frag b = true) (s s' : HV) :
+    hashG true a s = hashG true b s' ↔ (s = s' ∧ den a = den b) :=
+  (main_frag (depth a + depth b + 1) a b (by omega) (by omega) ha hb fa fb).2 s s'
+
+/-! ### Part 3 — canonical forms are unique -/
+
+/-- same constructor, same scalar fields; collections up to enumeration order -/
+def sameRep : Rep → Rep → Prop
+  | .num a, .num b => a = b
+  | .gtuple [], .gtuple [] => True
+  | .charT i c, .charT j d => i = j ∧ c = d
+  | .byteT i c, .byteT j d => i = j ∧ c = d
+  | .empty, .empty => True
+  | .true_, .true_ => True
+  | .str s o h, .str s' o' h' => s = s' ∧ o = o' ∧ h = h'
+  | .bytes b o, .bytes b' o' => b = b' ∧ o = o'
+  | .generic xs, .generic ys =>
+    xs.length = ys.length ∧ ∀ v, v ∈ denList xs ↔ v ∈ denList ys   -- a permutation up to member denotation
+  | _, _ => False
+
+def wf_unique_full : Prop :=
+  ∀ a b : Rep, wf a = true → wf b = true → den a = den b → ctorTag a = ctorTag b
+
+theorem wf_unique_partial (a b : Rep) (ha : wf a = true) (hb : wf b = true)
+    (fa : frag a = true) (fb : frag b = true) (h : den a = den b) : sameRep a b := by
+  have htag : ctorTag a = ctorTag b := by rw [← vtag_den a ha fa, ← vtag_den b hb fb, h]
+  cases a <;> cases b <;> simp [ctorTag] at htag <;> simp [frag] at fa fb
+  case num.num x y => simpa [den] using h
+  case gtuple.gtuple as bs => subst fa; subst fb; trivial
+  case charT.charT i c j d => simpa [den, vpair, sameRep] using h
+  case byteT.byteT i c j d => simpa [den, vpair, sameRep] using h
+  case empty.empty => trivial
+  case true_.true_ => trivial
+  case str.str s o h1 s' o' h2 =>
+    obtain ⟨e1, e2, e3⟩ := (str_den_inj s s' o o' h1 h2 ha hb).1 h
+    exact ⟨e2, e1, e3⟩
+  case bytes.bytes b o b' o' =>
+    obtain ⟨e1, e2⟩ := (bytes_den_inj b b' o o' ha hb).1 h
+    exact ⟨e2, e1⟩
+  case generic.generic xs ys =>
+    simp only [den, V.mkSet, V.set.injEq] at h
+    have hm := (FinSet.mk_eq_iff _ _).1 h
+    simp only [wf, Bool.and_eq_true, decide_eq_true_eq] at ha hb
+    refine ⟨?_, hm⟩
+    have := FinSet.length_eq_of_same_members (denList xs) (denList ys) ha.1.2 hb.1.2 hm
+    rwa [denList_length, denList_length] at this
+
+/-! ### Part 4 — equal values collapse: one member of a built set, the same dictionary entry -/
+
+def collapse_full : Prop :=
+  ∀ x y : Rep, wf x = true → wf y = true → den x = den y →
+    dedupFrozen [x, y] = [x] ∧ ∀ v, dictGet (newDict [(x, v)]) y = [v]
+
+theorem collapse_partial (x y : Rep) (hx : wf x = true) (hy : wf y = true)
+    (fx : frag x = true) (fy : frag y = true) (h : den x = den y) :
+    dedupFrozen [x, y] = [x] ∧ ∀ v, dictGet (newDict [(x, v)]) y = [v] := by
+  have he : equal x y = true := (equal_iff_den_partial x y hx hy fx fy).2 h
+  have hh : hashKey x = hashKey y := hash_contract_partial x y hx hy fx fy he
+  constructor
+  · simp [dedupFrozen, memFrozen, hh, he]
+  · intro v
+    simp [newDict, dictGet, hh, he]
+
+/-- and different values stay apart -/
+theorem no_collapse_partial (x y : Rep) (hx : wf x = true) (hy : wf y = true)
+    (fx : frag x = true) (fy : frag y = true) (h : den x ≠ den y) :
+    dedupFrozen [x, y] = [x, y] ∧ ∀ v, dictGet (newDict [(x, v)]) y = [] := by
+  have he : equal x y = false := by
+    cases e : equal x y with
+    | false => rfl
+    | true => exact absurd ((equal_iff_den_partial x y hx hy fx fy).1 e) h
+  constructor
+  · simp [dedupFrozen, memFrozen, he]
+  · intro v
+    simp [newDict, dictGet, he]
+
+/-! ### Part 5 — behaviour before the repairs (each witness is also a corpus case of the check) -/
+
+/-- `+>` left a generic tuple with heading (@, @char): not canonical, and not `Equal` to the character tuple
+from the other side -/
+theorem merge_false_before_repair :
+    wf (mergeLeftToRightOld (.gtuple [("@", .num 0)]) (.gtuple [("@char", .num 97)])) = false ∧
+    equal (.charT 0 97) (mergeLeftToRightOld (.gtuple [("@", .num 0)]) (.gtuple [("@char", .num 97)])) = false := by
+  decide
+
+theorem merge_repaired :
+    mergeLeftToRight (.gtuple [("@", .num 0)]) (.gtuple [("@char", .num 97)]) = .ok (.charT 0 97) := by decide
+
+/-- `[1, , 3] without (@: 0, @item: 1)` kept the leading hole -/
+theorem array_without_false_before_repair :
+    wf (arrWithoutOld [some (.num 1), none, some (.num 3)] 0 2 0 (.num 1)) = false ∧
+    equal (arrWithoutOld [some (.num 1), none, some (.num 3)] 0 2 0 (.num 1)) (.array [some (.num 3)] 2 1) = false := by
+  decide
+
+theorem array_without_repaired :
+    arrWithout [some (.num 1), none, some (.num 3)] 0 2 0 (.num 1) = .array [some (.num 3)] 2 1 := by decide
+
+/-- `('a' ++ 1\'c') without (@: 0, @char: 97)` kept the leading hole -/
+theorem string_without_false_before_repair :
+    wf (strWithoutOld [97, -1, 99] 0 1 0 97) = false ∧
+    equal (strWithoutOld [97, -1, 99] 0 1 0 97) (.str [99] 2 0) = false := by decide
+
+theorem string_without_repaired : strWithout [97, -1, 99] 0 1 0 97 = .str [99] 2 0 := by decide
+
+/-- `(@: 0, @byte: 300)` became `(@: 0, @byte: 44)` -/
+theorem special_tuple_false_before_repair :
+    newTupleOld [("@", .num 0), ("@byte", .num 300)] = .ok (.byteT 0 44) ∧
+    newTuple [("@", .num 0), ("@byte", .num 300)] = .ok (.gtuple [("@", .num 0), ("@byte", .num 300)]) := by
+  decide
+
+/-- XOR-linear set hashes: `{{1, 2}, {3}} = {{1, 3}, {2}}` was true -/
+theorem nested_set_hash_false_before_repair :
+    equalOld (.generic [.generic [.num 1, .num 2], .generic [.num 3]])
+             (.generic [.generic [.num 1, .num 3], .generic [.num 2]]) = true ∧
+    equal (.generic [.generic [.num 1, .num 2], .generic [.num 3]])
+          (.generic [.generic [.num 1, .num 3], .generic [.num 2]]) = false := by decide
+
+/-- offset-blind string hash: `{'a'} = {1\'a'}` was true; `{'a'} = {<<97>>}` too -/
+theorem string_hash_false_before_repair :
+    equalOld (.generic [.str [97] 0 0]) (.generic [.str [97] 1 0]) = true ∧
+    equal (.generic [.str [97] 0 0]) (.generic [.str [97] 1 0]) = false ∧
+    equalOld (.generic [.str [97] 0 0]) (.generic [.bytes [97] 0]) = true ∧
+    equal (.generic [.str [97] 0 0]) (.generic [.bytes [97] 0]) = false := by decide
+
+/-! ### every hypothesis is satisfiable by non-trivial values -/
+
+example : let a : Rep := .generic [.generic [.num 1, .str [97, -1, 99] 2 1], .true_, .gtuple []]
+    wf a = true ∧ frag a = true := by decide
+
+example : let a : Rep := .generic [.num 1, .bytes [1, 2] 3]
+          let b : Rep := .generic [.bytes [1, 2] 3, .num 1]
+    wf a = true ∧ wf b = true ∧ frag a = true ∧ frag b = true ∧ den a = den b ∧ a ≠ b := by decide
 
 end Arrai.C02.Theorems
